@@ -10,6 +10,7 @@ Profiles (one per property that uses this oracle):
   flows   plain + switch_flow / switch_to_default / remove_flow                      -> C10
   reset   plain + reset_state                                                       -> C17
   refuse  plain with mostly invalid arguments (unknown variable, path, flow, slot)   -> C09
+  eval    plain + evaluate_function (functions of the story with arguments, unknown names)  -> C16
 A mismatch is attributed to the property of the profile only from the first call of the profile's own kind on;
 earlier ones are handed to C01 (plain play), whose check runs the plain profile itself."""
 import json
@@ -22,8 +23,8 @@ import gen_ast
 import lib
 
 SPECIAL = {"save": {"save", "load"}, "flows": {"switch_flow", "switch_default", "remove_flow"}, "reset": {"reset"},
-           "refuse": None, "plain": None}
-OWNER = {"save": "C02", "flows": "C10", "reset": "C17", "refuse": "C09", "plain": "C01"}
+           "eval": {"eval_fn"}, "refuse": None, "plain": None}
+OWNER = {"save": "C02", "flows": "C10", "reset": "C17", "refuse": "C09", "plain": "C01", "eval": "C16"}
 
 
 def chars(s):
@@ -42,6 +43,9 @@ def history(rnd, prog, profile, length):
         weights.update(switch_flow=2.5, switch_default=1, remove_flow=1)
     if profile == "reset":
         weights.update(reset=1.2)
+    funcs = [(k, len(v["params"])) for k, v in prog["prog"]["knots"].items() if v["kind"] == "function"]
+    if profile == "eval":
+        weights.update(eval_fn=5)
     names = list(weights)
     bad = 0.6 if profile == "refuse" else 0.12
     if profile == "save" and rnd.random() < 0.5:
@@ -85,6 +89,12 @@ def history(rnd, prog, profile, length):
             ops += [{"op": "cont"}] * rnd.choice([0, 1, 2])
         elif k == "remove_flow":
             ops.append({"op": "remove_flow", "name": rnd.choice(["f1", "f2", "f1", "DEFAULT_FLOW", "zz"])})
+        elif k == "eval_fn":
+            if funcs and rnd.random() > bad:
+                f, n = rnd.choice(funcs)
+                ops.append({"op": "eval_fn", "name": f, "args": [{"t": "int", "v": rnd.randint(0, 4)} for _ in range(n)]})
+            else:
+                ops.append({"op": "eval_fn", "name": rnd.choice(["nosuch", "f99"]), "args": []})
         elif k == "reset":
             ops.append({"op": "reset"})
             ops += [{"op": "cont"}] * rnd.choice([1, 2, 3])
@@ -140,7 +150,13 @@ def run(profile, tier, seed, nprog=None, nhist=None, length=None, name=None):
                     "vars": vs or {"_": {"t": "int", "v": 0}},
                     "cur": (o.get("save") or {}).get("currentFlowName", "") if isinstance(o.get("save"), dict) else "",
                     "alive": sorted(((o.get("save") or {}).get("flows") or {}).keys()) if isinstance(o.get("save"), dict) else []}
+            ret = (r.get("val") or {}).get("ret") if op["op"] == "eval_fn" and isinstance(r.get("val"), dict) else None
+            if ret is not None and c01.value_json(ret) is None:
+                bad = True      # (a value outside the model's types)
+                break
             out.append({"op": op["op"], "i": r.get("chosen", op.get("i", 0)), "name": op.get("name", op.get("path", "")),
+                        "args": op.get("args", []), "val": c01.value_json(ret) if ret is not None else {"t": "void"},
+                        "ftext": chars((r.get("val") or {}).get("text", "")) if op["op"] == "eval_fn" and isinstance(r.get("val"), dict) else [],
                         "value": op.get("value", {"t": "int", "v": 0}), "reset": bool(op.get("reset", False)),
                         "slot": op.get("slot", ""), "res": "ok" if r.get("res") == "ok" else "err", "seen": seen,
                         "sv": sv if sv is not None else []})
